@@ -158,3 +158,11 @@ func init() {
 		return nil
 	}
 }
+
+// C18 (behavioural part): on a real node, in views reached by timeouts and NEW_VIEWs, a PREPREPARE / NEW_VIEW is accepted only
+// from the member at position (view mod n), a PREPARE only from someone else, a VIEW_CHANGE only when the node itself is that
+// member; member ids are 20 bytes long and share their leading bytes. Also messages carrying views >= 2^63 must not panic.
+func TestC18N(t *testing.T) {
+	nProperty(t, nOpts{Focus: "C18", Kinds: []string{"PP", "PP", "NV", "NV", "P", "VC"}, MaxCands: 4,
+		Mutations: []string{"sender", "sender", "sender", "view", "nvpp-signer", "sig"}})
+}
